@@ -568,3 +568,34 @@ Fixpoint run (fuel : nat) (sy : sys) (pp : popu) (s : st) (rs : list request) : 
 (** Fuel that is never exhausted: a variable occurs at most max_loops + 1 times on the
     stack (proved in EngineProofs.v), so the depth is bounded by (L + 2) * |vars| + 1. *)
 Definition enough_fuel (sy : sys) : nat := S ((max_loops sy + 2) * length (vars sy)).
+
+(** * Specification-level answers: what a request means on given inputs, with no machine
+    state at all (used to state that answers do not depend on earlier requests). *)
+
+Definition sem_rec (sy : sys) (pp : popu) (inp : inputs) := den (S (length (vars sy))) sy pp inp.
+
+Definition sem (sy : sys) (pp : popu) (inp : inputs) (v : nat) (p : period) : res val :=
+  snd (sem_rec sy pp inp tt v p).
+
+Definition sem_answer (sy : sys) (pp : popu) (inp : inputs) (r : request) : answer :=
+  match r with
+  | RCalc v p => of_res (sem sy pp inp v p)
+  | RAdd v p =>
+      match nth_error (vars sy) v with
+      | None => AErr ENotFound
+      | Some x => of_res (snd (calc_add (sem_rec sy pp inp) tt v x p))
+      end
+  | RDivide v p =>
+      match nth_error (vars sy) v with
+      | None => AErr ENotFound
+      | Some x =>
+          match snd (calc_divide (sem_rec sy pp inp) tt v x p) with
+          | Ok (n, d) => AQuot n d
+          | Err e => AErr e
+          end
+      end
+  | _ => ANone
+  end.
+
+Definition is_calc_request (r : request) : bool :=
+  match r with RCalc _ _ | RAdd _ _ | RDivide _ _ => true | _ => false end.
